@@ -17,8 +17,8 @@ What is proved here, for every machine state and every chunk (no bound on sizes)
   complete success reply, and then only after `makeConn` and the `connected` outcome;
 * `C05_once` — the attempt's outcome fires at most once over any run;
 * `C05_errors` — reply code ↦ exception class of the **generated** error table, code preserved.
-The run-level equality `observe (run …) = specObs (total)` is checked by the correspondence run on
-every segmentation of every generated stream (`spec` line of the driver); see DESIGN.md.
+The run-level equality `observe (run …) = specObs (total)` is `C05_stream_law` in `Props/C05b.lean`; the
+correspondence run checks the same law against the implementation on several segmentations of every stream.
 -/
 namespace TxV.Props.C05
 open TxV.Socks TxV.SocksSpec TxV
